@@ -747,6 +747,9 @@ def _canon(o):
             _canon(e)
     elif isinstance(o, Mapping):
         for e in o.values():
+            for x in (e if isinstance(e, list) else [e]):
+                if isinstance(x, CIMInstance):
+                    x.path = None       # an embedded instance as output parameter value: see below
             _canon(e)
     elif type(o) in ATTRS:
         if isinstance(o, (CIMProperty, CIMMethod)) and o.propagated is None:
@@ -954,7 +957,7 @@ K_HOST = 'known:mock-instance-paths-without-host-where-DSP0200-returns-INSTANCEP
 K_CLASSPATH = 'known:mock-class-level-Associators-References-class-without-path'
 K_BOOL = 'known:InvokeMethod-boolean-FALSE-read-as-True'
 K_NULLENTRY = 'known:InvokeMethod-array-parameter-with-NULL-entry-AttributeError'
-K_MOCKNULL = 'known:mock-InvokeMethod-NULL-or-empty-array-keyword-parameter-rejected'
+K_MOCKNULL = 'known:mock-InvokeMethod-NULL-empty-array-or-class-path-parameter-rejected-by-cimtype'
 K_EMBPATH = 'known:embedded-instance-with-path-sent-as-VALUE.OBJECTWITHLOCALPATH'
 K_SCOPEANY = 'known:qualifier-declaration-scope-ANY-false-sent-as-SCOPE-attribute'
 K_CHAR16KEY = 'known:char16-keybinding-arrives-as-string'
@@ -974,10 +977,12 @@ WHAT = {
                  "\"'NoneType' object has no attribute 'nodeType'\" while building the request (paramvalue() in "
                  "_methodcall() returns None for a None entry instead of VALUE.NULL); the same call on "
                  "FakedWBEMConnection succeeds and echoes [False, None]",
-    K_MOCKNULL: "FakedWBEMConnection.InvokeMethod('Echo', 'C04_Sub', p_boolean=None) raises TypeError and "
-                "InvokeMethod('Echo', 'C04_Sub', pa_boolean=[]) raises ValueError in _mock_methodcall() (cimtype() of "
-                "the value), whereas WBEMConnection sends the parameter as PARAMVALUE without PARAMTYPE and the call "
-                "succeeds: _mock_methodcall() does not perform 'the same checks and transformations as _methodcall()'",
+    K_MOCKNULL: "FakedWBEMConnection.InvokeMethod('Echo', 'C04_Sub', p_boolean=None) raises TypeError, "
+                "InvokeMethod('Echo', 'C04_Sub', pa_boolean=[]) raises ValueError and InvokeMethod('Echo', 'C04_Sub', "
+                "p_ref=CIMClassName('C04_Base')) raises TypeError in _mock_methodcall() (cimtype() of the value), "
+                "whereas WBEMConnection sends them (PARAMVALUE without PARAMTYPE / PARAMTYPE=\"reference\") and the "
+                "call succeeds: _mock_methodcall() does not perform 'the same checks and transformations as "
+                "_methodcall()'",
     K_EMBPATH: "WBEMConnection.CreateInstance(CIMInstance('C04_Sub', {'Id': 'w', 'Emb': CIMProperty('Emb', <CIMInstance "
                "C04_Other with path.namespace set>, embedded_object='instance')})) sends the embedded instance as "
                "VALUE.OBJECTWITHLOCALPATH inside the property value, which pywbem's own parser rejects ('Invalid "
@@ -1040,7 +1045,9 @@ def classify(op, args, kwargs, oa, ow, d):
             ow[3][-1] == 'appendChild' and any(has_none_entry(v) for v in invoke_values(args, kwargs)):
         return K_NULLENTRY
     if op == 'InvokeMethod' and oa[0] == 'exc' and oa[1] in ('TypeError', 'ValueError') and 'cimtype' in oa[3] and \
-            ow[0] in ('ok', 'cim') and any(v is None or (isinstance(v, list) and not v) for v in kwargs.values()):
+            ow[0] in ('ok', 'cim') and any(v is None or (isinstance(v, list) and not v) or isinstance(v, CIMClassName) or
+                                           (isinstance(v, list) and isinstance(v[0], CIMClassName))
+                                           for v in invoke_values(args, kwargs)):
         return K_MOCKNULL
     if ow[0] == 'facade' and ow[1] == 'request-not-parsable' and "Invalid top-level element 'VALUE.OBJECTWITH" in ow[2] \
             and embedded_with_path(args):
